@@ -2,7 +2,7 @@
 # usage: try_scratch.sh <patch> [IDs...]   Like try_benign.sh, but the scratch copy of /verif under /tmp/bx is
 # created once and then left alone, so that harness sources can be edited THERE (e.g. while a long run
 # builds from /verif); `try_scratch.sh --back` copies the edited harness sources back to /verif.
-BX=/tmp/bx
+BX=${BX:-/tmp/bx}
 if [ "$1" = "--back" ]; then
   rsync -a $BX/verif/harness/src/ /verif/harness/src/; rsync -a $BX/verif/harness-adapt/src/ /verif/harness-adapt/src/; rsync -a $BX/verif/miri/src/ /verif/miri/src/
   exit 0
